@@ -20,7 +20,7 @@ FRONT_RULE = (
     "each 0 < i <= len(b) the inputs b[:i] and b[:i]+newline (so that the cut element also ENDS A SOURCE LINE: the diagnostic excerpt "
     "of that line is re-lexed without its newline), deduplicated; bases = every input: string of lexer/*_test.go (all of them, both "
     "tiers), input:/source: strings of parser/*_test.go (quick: a seeded sample of n/12; thorough: all) and snippets of a LITERAL "
-    "grammar (n/8 quick, 4n thorough) covering every literal kind the lexer has a scanner or a mode for - ints in every base with "
+    "grammar (n/8 snippets quick, n/12 thorough) covering every literal kind the lexer has a scanner or a mode for - ints in every base with "
     "valid/invalid digits, underscores and suffixes, floats/exponents, strings/raw strings/chars with every escape form cut short, "
     "interpolation, symbols, quoted identifiers, regex literals, ranges, comments, and the collection literals %w[ %s[ %x[ %b[ and "
     "their ^ and backslash forms with valid and INVALID elements, any separator, closed / closed with capacity / not closed; the "
@@ -271,13 +271,19 @@ def run(ctx):
         "PROVED (see c03.regex / Props/C03.v, filled in by regex_part): termination and diagnostics-only behaviour of a fuelled Coq model "
         "of the REGEX lexer and parser. NOT PROVED, FUZZED ONLY: the Elk lexer, the 8 000-line Elk parser, the macro expander and the "
         "type checker are not modelled at all; stream c03.front is fuzzing, not proof: generated, mutated and truncated inputs are "
-        "pushed through lexer.Lex, parser.Parse, checker.CheckSource and regex.Transpile in watchdogged subprocesses and the only thing "
-        "observed is 'no panic, no fatal error, no hang'. A pass of c03.front means no crashing input was found among the inputs "
-        "tried, nothing more.")
+        "pushed through lexer.Lex, parser.Parse, checker.CheckSource, regex.Transpile and the diagnostic printer (HumanString with "
+        "lexer.Colorizer, which re-lexes every excerpt line) in watchdogged subprocesses and the only thing "
+        "observed is 'no panic, no fatal error, no hang'. Since the strengthening pass the stream also contains EVERY byte-position prefix "
+        "(with and without a trailing newline) of all lexer test inputs, of parser test inputs and of snippets of a literal grammar "
+        "that covers every literal kind / lexer mode with invalid elements (generator p): this is an implementation-level oracle "
+        "(CPU-time watchdog + recover), NOT a model - the scanners of the Elk lexer (e.g. scanIntCollectionLiteral, where a loop that "
+        "does not test advanceChar's ok result at end of input would spin) are not modelled in Coq. A pass of c03.front means no "
+        "crashing or hanging input was found among the inputs tried, nothing more.")
     ctx.trusted_base += [
         "c03.front: Go harness harness/cmd/c03 (generators, worker pool, CPU-time watchdog reading /proc/<pid>/stat, stack-sample site extraction); "
         "the checker stage uses checker.CheckSource with a fresh global environment, the entry cmd/elk's CheckFile shares (newChecker + CheckProgram); "
-        "the REPL's incremental (*Checker).CheckSource path is not exercised",
+        "the REPL's incremental (*Checker).CheckSource path is not exercised; the render stage prints with the source map entry of the "
+        "input itself (as the REPL does; `elk run` re-reads the file), diagnostics located in other files are not printed",
     ]
     regex_part(ctx)
     try:
